@@ -46,7 +46,7 @@ def model(c, runs):
                                       invariants=INVS)))
     jobs.append(dict(name="simulate (spec -> code)", module="Channel_Gen", simulate=True, expect="behaviours",
                      cfg=cfg_text(spec="GSpec", constants=GEN, invariants=["GenEmit"]),
-                     kw=dict(workers=1, simulate="num=%d" % (40 if c.quick else 800), extra=["-depth", "150", "-seed", str(c.seed + 1)])))
+                     kw=dict(workers=1, simulate="num=%d" % (40 if c.quick else 500), extra=["-depth", "150", "-seed", str(c.seed + 1)])))
     res = dc.mc_batch(c, jobs)
     # RP 1: drive the real code along each counterexample
     for name, a, b in PAIRS:
@@ -138,7 +138,7 @@ def run(c):
         progs.append({"par": {"win": {"A": 32768, "B": 32768}, "pkt": {"A": 4096, "B": 4096}, "tmo": {"A": "block", "B": "block"}},
                       "threads": p["threads"]})
     progs += programs(rnd, 10 if c.quick else 150)
-    deadline = time.time() + (9 if c.quick else 300)
+    deadline = time.time() + (9 if c.quick else 200)
     explored = dc.explore_into(runs, c, progs, 25 if c.quick else 250, 6 if c.quick else 40, deadline,
                                bound=1 if c.quick else 2)
     laps["explore_s"] = round(time.time() - t0 - laps["model+replay_s"], 1)
